@@ -9,6 +9,6 @@ for d in seeded/${1:-}*/; do
     prop=$(python3 -c "import json;m=json.load(open('$d/meta.json'));print(' '.join(m.get('checked_with',[m['breaks_property']])))")
     out=$(tools/mutant.sh "$d/patch.diff" $prop 2>&1)
     n=$(echo "$out" | grep -oE "[0-9]+ violations" | head -n 1 | cut -d' ' -f1)
-    if echo "$out" | grep -q "^VIOLATION"; then echo "$id $prop caught ${n:-?}"; else echo "$id $prop MISSED ${n:-?} $(echo "$out" | tail -n 1 | cut -c1-120)"; fi
+    if echo "$out" | grep -q "^VIOLATION" || [ "${n:-0}" -gt 0 ] 2>/dev/null; then echo "$id $prop caught ${n:-?}"; else echo "$id $prop MISSED ${n:-?} $(echo "$out" | tail -n 1 | cut -c1-120)"; fi
 done
 tools/mutant.sh --clean
